@@ -90,14 +90,11 @@ fn decode_case(t: &mut Tape) -> Case {
 }
 
 fn gen_mips(t: &mut Tape, isa: Isa) -> Case {
+    // the instruction first (so that the tape can never run dry before it), then the state
     let pc = MIPS_PCS[t.below(MIPS_PCS.len())];
-    let mut regs: Vec<u32> = (0..32).map(|_| gen_value(t)).collect();
-    regs[0] = 0;
-    let hi = gen_value(t);
-    let lo = gen_value(t);
-    let mem_seed = t.u64();
     let mut words = Vec::new();
     let origin;
+    let mut equalise: Option<(u8, u8, u32, u32)> = None;
     if t.chance(1, 12) {
         // uniformly random word; if it decodes as a branch give it a slot
         let w = t.raw();
@@ -117,12 +114,22 @@ fn gen_mips(t: &mut Tape, isa: Isa) -> Case {
             let d = mips_ref::decode(w).expect("template branch decodes");
             words.push(gen_mips_slot(t, &d));
             // make equality branches take both ways
-            if matches!(op, mips_asm::Op::Beq | mips_asm::Op::Bne) && f.rt != 0 && t.chance(2, 5) {
-                regs[f.rt as usize] = regs[f.rs as usize];
+            if matches!(op, mips_asm::Op::Beq | mips_asm::Op::Bne) && f.rt != 0 {
+                equalise = Some((f.rs, f.rt, 2, 5));
             }
         }
-        if op == mips_asm::Op::Teq && f.rt != 0 && t.chance(1, 2) {
-            regs[f.rt as usize] = regs[f.rs as usize];
+        if op == mips_asm::Op::Teq && f.rt != 0 {
+            equalise = Some((f.rs, f.rt, 1, 2));
+        }
+    }
+    let mut regs: Vec<u32> = (0..32).map(|_| gen_value(t)).collect();
+    regs[0] = 0;
+    let hi = gen_value(t);
+    let lo = gen_value(t);
+    let mem_seed = t.u64();
+    if let Some((rs, rt, num, den)) = equalise {
+        if t.chance(num, den) {
+            regs[rt as usize] = regs[rs as usize];
         }
     }
     // alignment steering for the memory access of the instruction (or of the delay slot)
@@ -205,6 +212,17 @@ fn writes_rt(op: mips_asm::Op) -> bool {
 
 fn gen_ppc(t: &mut Tape) -> Case {
     let pc = PPC_PCS[t.below(PPC_PCS.len())];
+    let mut words = Vec::new();
+    let origin;
+    if t.chance(1, 12) {
+        words.push(t.raw());
+        origin = "random".to_string();
+    } else {
+        let tpl = &ppc_asm::TEMPLATES[t.below(ppc_asm::TEMPLATES.len())];
+        let (_, _, w) = tpl.instantiate(t);
+        origin = format!("template:{}", tpl.name);
+        words.push(w);
+    }
     let mut regs: Vec<u32> = (0..32).map(|_| gen_value(t)).collect();
     let lr = gen_value(t);
     let ctr = match t.weighted(&[2, 2, 2, 6]) {
@@ -220,17 +238,6 @@ fn gen_ppc(t: &mut Tape) -> Case {
     };
     let ca = t.below(2) as u32;
     let mem_seed = t.u64();
-    let mut words = Vec::new();
-    let origin;
-    if t.chance(1, 12) {
-        words.push(t.raw());
-        origin = "random".to_string();
-    } else {
-        let tpl = &ppc_asm::TEMPLATES[t.below(ppc_asm::TEMPLATES.len())];
-        let (_, _, w) = tpl.instantiate(t);
-        origin = format!("template:{}", tpl.name);
-        words.push(w);
-    }
     if let Ok(d) = ppc_ref::decode(words[0]) {
         if d.k == ppc_ref::K::Stmw && d.ra != 0 && t.chance(7, 8) {
             let base = regs[d.ra as usize];
@@ -665,7 +672,17 @@ fn mips_sigs(case: &Case, run: &IlRun, diffs: &[Diff]) -> Vec<(String, String)> 
     }
     let d = &diffs[0];
     let component = if d.component.starts_with("il-fault:undefined-scalar:") && !d.component.ends_with("$zero") { squeeze_digits(&d.component) } else { d.component.clone() };
-    let sub = if component.starts_with("il-fault:undefined-scalar") { String::new() } else { mips_subclass(case, &d0, slot) };
+    // a branch that is wrong whatever sits in its delay slot: same component with a nop slot
+    let mut slot_independent = false;
+    if slot.is_some() && case.words[1] != 0 {
+        let with_nop = Case { words: vec![case.words[0], 0], origin: "nop-slot".into(), ..case.clone() };
+        if let MipsEval::Compared { diffs: dn, .. } = eval_mips(&with_nop) {
+            slot_independent = dn.first().map(|x| x.component == d.component).unwrap_or(false);
+        }
+    } else if slot.is_some() {
+        slot_independent = true;
+    }
+    let sub = if component.starts_with("il-fault:undefined-scalar") || slot_independent { String::new() } else { mips_subclass(case, &d0, slot) };
     sigs.push((format!("C02|{}|{}|{}{}", fam, mn, component, sub), format!("{} {}\n{}", case.isa.name(), d0.render(), summary)));
     sigs
 }
@@ -1076,7 +1093,7 @@ fn main() -> std::process::ExitCode {
     let mut spec = Spec::new(
         "C02",
         "one MIPS32 (big/little endian) or PPC32 instruction word from a template encoder with all fields random (1/12 uniformly random words), MIPS branches as (branch, delay slot) pairs, boundary-biased register/HI/LO/LR/CTR/CR state, total byte memory; lifted with translate_block, run with the reference IL interpreter and compared with a manual-derived interpreter that decodes the raw word. non-trivial = lifter accepted, reference models the word, no architectural exclusion; distinct = (ISA, mnemonic, register-aliasing pattern, immediate sign, alignment class, delay-slot mnemonic and interference class | rlwinm mask shape / BO / CR field)",
-        Box::new(|_t: Tier| from_tape(160, decode_case)),
+        Box::new(|_t: Tier| from_tape(280, decode_case)),
         |t| t.pick(400_000, 40_000_000),
         check,
     );
